@@ -24,9 +24,11 @@ package object
 //@   pureeffect
 //@   ensures result == false ==> nodeNotInMaintenance()
 
+// (The extended-ACL evaluation is in the guarded set too: for tables with object filters it
+// reads object headers from the local storage or from other nodes.)
 //@ callrule no_client_operation_in_maintenance in implements:object.ObjectServiceServer, (*Server).HeadBuffered, (*Server).SearchV2Buffered, !(*Server).Replicate
 //@   property C45
-//@   callee (object.Handlers).{Get,Head,Delete,GetRange}, (object.Storage).*, (object.ClientConstructor).*, object.forward*, (*object.Server).forwardSearchRequest, (*object.Server).ProcessSearch, (*object.Server).processSearchRequest, (*object.Server).searchOnRemoteNode, (*put.Streamer).*, (*object.putStream).*, (*engine.StorageEngine).*, (*meta.Meta).*
+//@   callee (acl.ACLChecker).CheckEACL, (object.Handlers).{Get,Head,Delete,GetRange}, (object.Storage).*, (object.ClientConstructor).*, object.forward*, (*object.Server).forwardSearchRequest, (*object.Server).ProcessSearch, (*object.Server).processSearchRequest, (*object.Server).searchOnRemoteNode, (*put.Streamer).*, (*object.putStream).*, (*engine.StorageEngine).*, (*meta.Meta).*
 //@   requires [node_not_in_maintenance] nodeNotInMaintenance()
 
 // ---- C29: every client handler verifies the request signatures, validates its tokens
@@ -81,6 +83,51 @@ package object
 //@   property C29
 //@   pureeffect
 //@   defines err == nil ==> sigOK(req)
+
+// The tokens of a request are validated for the operation its handler serves: the session
+// verb (V2 and legacy V1) handed to the meta-header validation is the handler's own.
+//@ callrule c29_tokens_validated_for_delete in (*Server).Delete
+//@   property C29 C30
+//@   callee (*object.Server).handleRequestMetaHeader
+//@   requires [verbs_of_this_operation] a1 == v2.VerbObjectDelete && a2 == session.VerbObjectDelete
+//@ callrule c29_tokens_validated_for_head in (*Server).HeadBuffered
+//@   property C29 C30
+//@   callee (*object.Server).handleRequestMetaHeader
+//@   requires [verbs_of_this_operation] a1 == v2.VerbObjectHead && a2 == session.VerbObjectHead
+//@ callrule c29_tokens_validated_for_get in (*Server).Get
+//@   property C29 C30
+//@   callee (*object.Server).handleRequestMetaHeader
+//@   requires [verbs_of_this_operation] a1 == v2.VerbObjectGet && a2 == session.VerbObjectGet
+//@ callrule c29_tokens_validated_for_range in (*Server).GetRange
+//@   property C29 C30
+//@   callee (*object.Server).handleRequestMetaHeader
+//@   requires [verbs_of_this_operation] a1 == v2.VerbObjectRange && a2 == session.VerbObjectRange
+//@ callrule c29_tokens_validated_for_search in (*Server).SearchV2Buffered
+//@   property C29 C30
+//@   callee (*object.Server).handleRequestMetaHeader
+//@   requires [verbs_of_this_operation] a1 == v2.VerbObjectSearch && a2 == session.VerbObjectSearch
+
+// "No rule matched" on the request alone is not a verdict when the table has rules on object
+// headers: GET and HEAD then remember (recheckEACL) that the extended ACL must be evaluated
+// again on the object's header before anything of the object is sent. The storage handler is
+// called only if the request-time evaluation allowed the request outright or that re-check
+// is scheduled - whatever else the request asks for (payload_only, raw, ...).
+//@ ghost pred eaclAllowedOnRequest() bool
+//@ callrule c29_request_time_eacl_verdict in (*Server).Get, (*Server).HeadBuffered
+//@   property C29 C28
+//@   callee (acl.ACLChecker).CheckEACL
+//@   pureeffect
+//@   defines err == nil ==> eaclAllowedOnRequest()
+// GET hands the decision to the response stream it builds for the storage handler ...
+//@ callrule c29_get_stream_carries_the_pending_recheck in (*Server).Get
+//@   property C29 C28
+//@   callee object.convertGetPrm
+//@   requires [allowed_outright_or_header_recheck_scheduled] eaclAllowedOnRequest() || a3.recheckEACL
+// ... HEAD keeps it in a local and evaluates the header it gets back.
+//@ callrule c29_head_keeps_the_pending_recheck in (*Server).HeadBuffered
+//@   property C29 C28
+//@   callee (object.Handlers).Head
+//@   requires [allowed_outright_or_header_recheck_scheduled] eaclAllowedOnRequest() || recheckEACL
 
 // Proxied GET (the object is streamed from another container node): when the request
 // alone could not decide the extended ACL (recheckEACL), the header message of the remote
